@@ -742,7 +742,7 @@ seed_texts()
       m["Shape3D/Ellipsoid"] = { "Ellipsoid Parameters :=\nradius-x (in mm) := 10\nradius-y (in mm) := 20\nradius-z (in mm) := 30\nEnd :=\n" };
       m["Shape3D/Ellipsoidal Cylinder"]
           = { "Ellipsoidal Cylinder Parameters :=\nradius-x (in mm) := 10\nradius-y (in mm) := 20\nlength-z (in mm) := 30\nEnd :=\n" };
-      m["Shape3D/Box3D"] = { "Box3D Parameters :=\nlength-x (in mm) := 10\nlength-y (in mm) := 20\nlength-z (in mm) := 30\nEnd :=\n" };
+      m["Shape3D/Box3D"] = { "Box Parameters :=\nlength-x (in mm) := 10\nlength-y (in mm) := 20\nlength-z (in mm) := 30\nEND :=\n" };
       m["ProjectorByBinPair/Matrix"]
           = { "Projector Pair Using Matrix Parameters :=\nMatrix type := Ray Tracing\nRay Tracing Matrix Parameters :=\nnumber of rays in "
               "tangential direction to trace for each bin := 2\nEnd Ray Tracing Matrix Parameters :=\nEnd Projector Pair Using Matrix "
@@ -758,9 +758,22 @@ seed_texts()
               "Tracing Parameters :=\nEnd Forward Projector Using Ray Tracing Parameters :=\nBack projector type := "
               "Interpolation\nBack Projector Using Interpolation Parameters :=\nEnd Back Projector Using Interpolation Parameters "
               ":=\nEnd Projector Pair Using Separate Projectors Parameters :=\n" };
-      m["BinNormalisation/Chained"]
-          = { "Chained Bin Normalisation Parameters :=\nBin Normalisation to apply first := None\nBin Normalisation to apply second := "
-              "None\nEnd Chained Bin Normalisation Parameters :=\n" };
+      m["ForwardProjectorByBin/Pre Smoothing"]
+          = { "Pre Smoothing Forward Projector Parameters :=\nOriginal Forward projector type := Ray Tracing\nForward Projector Using Ray "
+              "Tracing Parameters :=\nEnd Forward Projector Using Ray Tracing Parameters :=\nfilter type := Separable Gaussian\nSeparable "
+              "Gaussian Filter Parameters :=\nx-dir filter FWHM (in mm) := 5\nEnd Separable Gaussian Filter Parameters :=\nEnd Pre "
+              "Smoothing Forward Projector Parameters :=\n" };
+      m["BackProjectorByBin/Post Smoothing"]
+          = { "Post Smoothing Back Projector Parameters :=\nOriginal Back projector type := Interpolation\nBack Projector Using "
+              "Interpolation Parameters :=\nEnd Back Projector Using Interpolation Parameters :=\nfilter type := Median\nMedian Filter "
+              "Parameters :=\nmask radius x := 1\nEnd Median Filter Parameters :=\nEnd Post Smoothing Back Projector Parameters :=\n" };
+      m["DataProcessor/Chained Data Processor"]
+          = { "Chained Data Processor Parameters :=\nData Processor to apply first := Median\nMedian Filter Parameters :=\nmask radius x := "
+              "2\nEnd Median Filter Parameters :=\nData Processor to apply second := Truncate To Cylindrical FOV\nTruncate To Cylindrical "
+              "FOV Parameters :=\nEnd Truncate To Cylindrical FOV Parameters :=\nEND Chained Data Processor Parameters :=\n" };
+      m["GeneralisedPrior/FilterRootPrior"] = { "FilterRootPrior Parameters :=\npenalisation factor := 2\nFilter type := Median\nMedian "
+                                                "Filter Parameters :=\nmask radius z := 1\nEnd Median Filter Parameters :=\nEND "
+                                                "FilterRootPrior Parameters :=\n" };
     }
   return m;
 }
